@@ -4,7 +4,7 @@ defect matrix on the implementation; oracle = the property text (the verifying e
 report a completed handshake)."""
 from vlib import core
 
-WRAP = "-Wl,--wrap=tls_record_send,--wrap=tls_record_recv,--wrap=sm2_do_ecdh,--wrap=tls_pre_master_secret_generate"
+WRAP = "-Wl,--wrap=tls_record_send,--wrap=tls_record_recv,--wrap=sm2_do_ecdh,--wrap=tls_pre_master_secret_generate,--wrap=tls_record_set_handshake_certificate,--wrap=hkdf_expand"
 PROTOS = ["tlcp", "tls12", "tls13"]
 DEFECTS = ["untrusted-root", "expired", "not-yet-valid", "issuer-not-ca", "bad-cert-sig", "key-mismatch"]
 
@@ -72,7 +72,9 @@ def run(ctx):
     cases = []
     for p in PROTOS:
         for role in ("client", "server"):
-            ds = ["valid"] + DEFECTS + (["enc-key-mismatch"] if (p == "tlcp" and role == "client") else []) + (["no-cert"] if role == "server" else [])
+            ds = ["valid"] + DEFECTS + ["leaf-swapped"] \
+                + (["enc-key-mismatch", "enc-cert-other-ca"] if (p == "tlcp" and role == "client") else []) \
+                + (["no-cert", "empty-cert"] if role == "server" else [])
             for d in ds:
                 for s in seeds:
                     cases.append(("auth %s %s %s %d" % (p, role, d, s), "auth:%s:%s-verifies:%s" % (p, role, d), role, d))
@@ -120,8 +122,9 @@ def finish(ctx):
         "the theorems are about the guard lists of Tls/Handshake.v (transcribed from the six drivers); that the C drivers perform these checks with these meanings is observed by the run-time defect matrix, not proved",
         "'proves possession of the private key' is read as: the signature / Finished equations hold (decision rule); unforgeability of SM2 signatures and SM2 encryption is not proved here",
         "a TLCP client without configured trust anchors skips the chain check (tlcp.c: if (conn->ca_certs_len)); the property's premise 'configured with trust anchors' excludes it",
-        "empty client Certificate message is covered by the guard theorem only; at run time the library client refuses to continue without a certificate, so the 'missing certificate' row is what is exercised",
+        "empty client Certificate message: TLCP / TLS 1.2 through a link-time interposer in the client thread (the client sends and hashes an empty list, so only the server's guards can stop it); TLS 1.3 through the proxy, which swaps the client's {Certificate} for an empty one protected with the captured client handshake key (the Finished would also fail later: the row shows where the server stops, the guard table shows that the check exists)",
+        "rows 'key-mismatch' = wrong-key ServerKeyExchange signature / CertificateVerify (right certificate, other private key); 'leaf-swapped' = another valid leaf of the same CA with the original key; 'untrusted-root' on the server side = client chain valid but not under the server's client-CA anchors",
     ]
     return ctx.finish(level="proof",
-                      rule="3 protocols x {client verifies server, server verifies client} x {valid (control), untrusted root, expired, not yet valid (interposed clock), issuer not a CA, corrupted certificate signature, certificate/private-key mismatch (= wrong-key signature / CertificateVerify), TLCP encryption-key mismatch, no client certificate} x seeds; oracle: the verifying endpoint's handshake return is not 1",
+                      rule="3 protocols x {client verifies server, server verifies client} x {valid (control), untrusted root, expired, not yet valid (interposed clock), issuer not a CA, corrupted certificate signature, certificate/private-key mismatch (= wrong-key signature / CertificateVerify), leaf swapped for another valid leaf, TLCP encryption-key mismatch, TLCP encryption certificate from another CA, no client certificate, empty client Certificate message} x seeds; oracle: the verifying endpoint's handshake return is not 1",
                       trusted=core.TRUSTED_COMMON + ["credential generation with the library's X.509 functions (props/C08/tls_peer.h)", "Coq files: Tls/Handshake.v HandshakeProofs.v"])
